@@ -474,6 +474,11 @@ func coalesceTCPPackets(mode canCoalesce, pkt []byte, pktBuffsIndex int, gsoSize
 			return coalescePktInvalidCSum
 		}
 		item.sentSeq = seq
+		if item.pshSet {
+			// The header of pkt replaces the header of the item: carry over PSH,
+			// which belongs to the final segment of the group.
+			pkt[item.iphLen+tcpFlagsOffset] |= tcpFlagPSH
+		}
 		extendBy := coalescedLen - len(pktHead)
 		bufs[pktBuffsIndex] = append(bufs[pktBuffsIndex], make([]byte, extendBy)...)
 		copy(bufs[pktBuffsIndex][bufsOffset+len(pkt):], bufs[item.bufsIndex][bufsOffset+int(headersLen):])
